@@ -83,16 +83,20 @@ type ncObs struct {
 	Err      string         `json:"err,omitempty"`
 	Ms       int64          `json:"ms"`       // wall time of the case in the child
 	AllocMB  []int64        `json:"alloc_mb"` // per measured step: MB allocated while the request was served (-1: not measured)
+	Buffered int64          `json:"buffered"` // ArrowBuffer.GetStats()["total_records_buffered"] after Close (-1: the case did not end)
+	Written  int64          `json:"written"`  // ... ["total_records_written"]
 }
 
 type ncLine struct {
-	Case    int    `json:"case"`
-	Step    int    `json:"step"`
-	Ev      string `json:"ev"` // begin | status | settled | end | fatal
-	Status  int    `json:"status"`
-	Message string `json:"msg,omitempty"`
-	Ms      int64  `json:"ms,omitempty"`
-	AllocMB int64  `json:"alloc_mb,omitempty"`
+	Case     int    `json:"case"`
+	Step     int    `json:"step"`
+	Ev       string `json:"ev"` // begin | status | settled | end | fatal
+	Status   int    `json:"status"`
+	Message  string `json:"msg,omitempty"`
+	Ms       int64  `json:"ms,omitempty"`
+	AllocMB  int64  `json:"alloc_mb,omitempty"`
+	Buffered int64  `json:"buffered,omitempty"`
+	Written  int64  `json:"written,omitempty"`
 }
 
 func ncCaseDir(root string, id int) string { return filepath.Join(root, "case"+strconv.Itoa(id)) }
@@ -215,7 +219,10 @@ func ncRunCase(c ncCase, root string, emit func(ncLine)) error {
 	closed := make(chan struct{})
 	go func() { buf.Close(); close(closed) }() //nolint:errcheck
 	<-closed
-	emit(ncLine{Case: c.ID, Ev: "end", Ms: time.Since(t0).Milliseconds()})
+	stats := buf.GetStats()
+	nb, _ := stats["total_records_buffered"].(int64)
+	nw, _ := stats["total_records_written"].(int64)
+	emit(ncLine{Case: c.ID, Ev: "end", Ms: time.Since(t0).Milliseconds(), Buffered: nb, Written: nw})
 	return nil
 }
 
@@ -370,6 +377,7 @@ func ncRunRange(t *testing.T, casesPath, root string, cases []ncCase, lo, hi int
 				case "begin":
 					o.ID = l.Case
 					o.DiedAt = -1
+					o.Buffered, o.Written = -1, -1
 					o.Statuses = []int{}
 					next = i
 				case "status":
@@ -385,6 +393,7 @@ func ncRunRange(t *testing.T, casesPath, root string, cases []ncCase, lo, hi int
 					next = i + 1
 				case "end":
 					o.Ms = l.Ms
+					o.Buffered, o.Written = l.Buffered, l.Written
 					next = i + 1
 				}
 			}
